@@ -692,6 +692,17 @@ func boundarySources() []source {
 			add(f64src(cf + o))
 			add(f64src(cf - o))
 		}
+		// the immediate float neighbours of every rounding tie c±0.5 (an implementation that
+		// rounds by adding 0.5 and truncating gets the predecessor of a tie wrong)
+		for _, tie := range []float64{cf + 0.5, cf - 0.5} {
+			add(f64src(math.Nextafter(tie, math.Inf(1))))
+			add(f64src(math.Nextafter(tie, math.Inf(-1))))
+			t32 := float32(tie)
+			if float64(t32) == tie {
+				add(f32src(math.Nextafter32(t32, float32(math.Inf(1)))))
+				add(f32src(math.Nextafter32(t32, float32(math.Inf(-1)))))
+			}
+		}
 		c32 := float32(cf)
 		for _, f := range []float32{c32, math.Nextafter32(c32, float32(math.Inf(1))), math.Nextafter32(c32, float32(math.Inf(-1)))} {
 			add(f32src(f))
